@@ -30,9 +30,18 @@ CHECKS["C01"] = dict(
          "left at a reachable non-terminal is used by the derivation of some member (C01_rules_useful, C01_reachable, C01_productive).  Each run "
          "re-checks the theorems and compares the extracted model with CFG.depth_constraint / UCFG.depth_constraint on random DSLs: membership of "
          "every candidate term (members, near-misses, ill-typed, partial and over-applications), programs(), the (type, depth, symbol) rule set and "
-         "type_request, under several hash seeds.  Not covered by a theorem: the unbounded grammar CFG.infinite and recursive=True (correspondence "
-         "only for type_request), derive_all/reduce_derivations (covered through C04)."),
-   note=TB + "The model represents the grammar by the function giving a non-terminal's rules and computes cleaning by productivity; the code's work-list and dict order are not modelled (the rule-set comparison ties them).  Types are ground without sums so Python type equality is structural.  Known findings: n_gram < 2 cannot honour forbidden patterns; an empty language makes the constructor raise KeyError.",
+         "type_request, under several hash seeds.  Compiled without depth bound (CFG.infinite, recursive=False): membership equals the judgement "
+         "wt_inf (no depth bound, no minimum variable depth, forbidden patterns at any arity) for every program when n_gram >= 2 "
+         "(C01_recursive_language); clean() does not change membership and always terminates (C01_recursive_clean, _clean_total, C01_clean_any, "
+         "_cleaned_sets); every remaining rule is used by some member (C01_recursive_rules_useful); the depth-d grammar is exactly the unbounded one "
+         "restricted to height <= d and variables at depth >= min_variable_depth (C01_bounded_is_restriction*); programs() of a finite unbounded "
+         "language is the size of the enumerated language (C01_recursive_count).  For both grammars derivations exist exactly for members and are "
+         "unique, and derive_all / reduce_derivations visit exactly the derivation's rules in pre-order (C01_derivation_exists/_unique, "
+         "C01_derive_all, C01_reduce_derivations).  Each run additionally compares CFG.depth_constraint(..., -1) with the extracted model: membership "
+         "incl. terms up to depth 6, programs(), the rule set, type_request, and derive_all / reduce_derivations of every member (also for bounded "
+         "cases).  Not covered: recursive=True; the builder's work-list and dict order; 'programs() = -1 iff the language is infinite' is proved "
+         "only in the finite direction."),
+   note=TB + "The model represents the grammar by the function giving a non-terminal's rules and computes cleaning by productivity; the code's work-list and dict order are not modelled (the rule-set comparison ties them).  Types are ground without sums so Python type equality is structural.  Cleaning of the unbounded grammar is computed by rounds with explicit fuel (sufficiency: C01_recursive_clean_total).  Known findings: n_gram < 2 cannot honour forbidden patterns; an empty language makes the constructor raise KeyError; programs()/is_recursive() report -1 for a finite language compiled without a bound.",
    design="5/C01")
 CHECKS["C11"] = dict(
    technique="Coq proof of the cached-evaluator model + extracted-model/implementation correspondence",
